@@ -724,7 +724,7 @@ func main() {
 			run(w, &c)
 		}
 	}
-	if w.N >= 50000 { // thorough tier
+	if w.N >= 30000 { // thorough tier
 		const d = 5
 		k := g.exhaustive(d)
 		w.Extra["exhaustive"] = true
